@@ -49,7 +49,7 @@ def cells(tier):
             if tpl == 2 and b > (2 if q else 3):
                 continue
             c = 2 if (not q or b <= 1) else 1
-            if q and tpl == 2 and b > 0:
+            if q and tpl == 2:
                 c = 1
             out.append({'tpl': tpl, 'b': b, 'mode': 'cuts', 'c': c})
             if b <= 2:
@@ -83,10 +83,14 @@ def build_stream(tpl, b):
         s = pre + body + b'\r\n.\r\nQUIT\r\n'
         hi = len(pre) + b + 5 + 4
     elif tpl == 2:
-        body2 = api.sbytes('body2', 1)
+        # (2 bytes when the first body is empty: a dot-stuffed line in the
+        # second message of the same burst)
+        body2 = api.sbytes('body2', 2 if b == 0 else 1)
         s = pre + body + b'\r\n.\r\nMAIL FROM:<e@f>\r\nRCPT TO:<g@h>\r\n' \
             b'DATA\r\n' + body2 + b'\r\n.\r\nQUIT\r\n'
         hi = len(pre) + b + 5 + 6
+        if b == 0:
+            hi = len(s)
     elif tpl == 3:
         s = b'EHLO c\r\nNOOP\r\nMAIL FROM:<a@b>\r\nRSET\r\nMAIL FROM:<a@b>' \
             b'\r\nRCPT TO:<c@d>\r\nDATA\r\n' + body + b'.\r\nNOOP\r\nQUIT\r\n'
